@@ -187,14 +187,15 @@ SPLIT_TOP = {"Q": [("R", ["a", "b", "c", "d"]), ("R", ["a", "b", "c", "d"]), ("T
 @condition("C18.split",
            anchors=["polyply.src.meta_molecule:MetaMolecule.split_residue", "polyply.src.meta_molecule:_interpret_residue_mapping",
                     "polyply.src.meta_molecule:MetaMolecule.relabel_and_redo_res_graph"],
-           rejects=(), selector_only=True, must_cover=["split", "duplicate rejected"],
+           rejects=(), selector_only=True, must_cover=["split", "duplicate rejected", "residue numbers with gaps"],
            outside=["residues of more than 4 atoms", "more than 3 new residues"],
            bounds={"quick": dict(), "thorough": dict()})
 def split(sx, B):
     """Real MetaMolecule.split_residue on a molecule with two four-atom residues R: every assignment of the atoms to up to three
     new residue names is chosen by the solver. Claims: the atoms of every R residue are partitioned into the named new residues,
     none lost or duplicated, atoms of other residues keep their residue, a doubly mentioned atom is rejected."""
-    assign = [sx.sel("atom_%s" % a, ["X", "Y", "Z"]) for a in "abcd"]
+    # (one of the new residue names equals the name of a residue that exists already)
+    assign = [sx.sel("atom_%s" % a, ["X", "Y", "T"]) for a in "abcd"]
     dup = sx.sel("mention_twice", [False, True])
     groups = {}
     for a, g in zip("abcd", assign):
@@ -203,7 +204,11 @@ def split(sx, B):
     if dup:
         parts.append("W-a")
     spec = "R:" + ":".join(parts)
-    top = topology_from_text(top_text(SPLIT_TOP, [("Q", 1)], atomtypes=("R", "T")))
+    numbering = sx.sel("residue_numbers", [(1, 2, 3), (1, 2, 5), (4, 5, 9)])
+    if numbering != (1, 2, 3):
+        sx.cover("residue numbers with gaps")
+    split_top = {"Q": [(nm, atoms, numbering[i]) for i, (nm, atoms) in enumerate(SPLIT_TOP["Q"])]}
+    top = topology_from_text(top_text(split_top, [("Q", 1)], atomtypes=("R", "T")))
     meta = top.molecules[0]
     natoms = len(meta.molecule.nodes)
     try:
@@ -394,3 +399,45 @@ def molecule_sections(sx, B):
     sx.claim([g[1:] for g in got_p] == [w[1:] for w in want_p],
              "persistence-length specifications select the molecules with the block's name and an index in its own range",
              lambda: "build file:\n%s\n%r expected %r" % ("\n".join(lines), got_p, want_p))
+
+
+@condition("C18.ligands_by_name",
+           anchors=["polyply.src.annotate_ligands:AnnotateLigands.__init__", "polyply.src.annotate_ligands:AnnotateLigands.run_system",
+                    "polyply.src.annotate_ligands:AnnotateLigands.split_ligands", "polyply.src.top_parser:TOPDirector.finalize"],
+           rejects=(), selector_only=True, must_cover=["handed back"],
+           outside=["more ligands than the three solvent molecules of the test system"],
+           bounds={"quick": dict(), "thorough": dict()})
+def ligands_by_name(sx, B):
+    """-lig with molecule *names* only (`P-A#3:S`) on a topology read by the real reader in which both names stand on several
+    [ molecules ] lines: every P molecule gets one S molecule attached at its residue A#3 (the first S to the first P, ...), each
+    ligand is handed back to its own molecule, the molecule list is unchanged."""
+    layout = [("P", 2), ("S", 1), ("G", 1), ("P", 1), ("S", 2)]          # P 0,1,4   S 2,5,6
+    top = topology_from_text(top_text(MOLT, layout))
+    resid = sx.sel("residue", [("A", 1), ("A", 3), ("B", 2)])
+    names_before = [m.mol_name for m in top.molecules]
+    nodes_before = {mi: set(m.nodes) for mi, m in enumerate(top.molecules)}
+    ann = AnnotateLigands(top, [("P-%s#%d" % resid, "S")])
+    ann.run_system(top)
+    pairs = [(0, 2), (1, 5), (4, 6)]
+    pos = {}
+    for k, (pi, si) in enumerate(pairs):
+        m = top.molecules[pi]
+        new = [n for n in m.nodes if n not in nodes_before[pi]]
+        target = [n for n in nodes_before[pi] if m.nodes[n]["resname"] == resid[0] and m.nodes[n]["resid"] == resid[1]]
+        ok = len(new) == 1 and sorted(m.neighbors(new[0])) == target and m.nodes[new[0]].get("ligated") == (si, next(iter(top.molecules[si].nodes)))
+        sx.claim(ok, "every molecule of the named type gets its own ligand molecule attached at the named residue",
+                 lambda: "P molecule %d: new nodes %r, ligated %r (expected S molecule %d)" % (pi, new, [m.nodes[x].get("ligated") for x in new], si))
+        for x in new:
+            pos[pi] = sentinel(20 + k)
+            m.nodes[x]["position"] = pos[pi]
+    for mi, m in enumerate(top.molecules):
+        if mi not in (0, 1, 4):
+            sx.claim(set(m.nodes) == nodes_before[mi], "no other molecule gets a ligand")
+    ann.split_ligands()
+    sx.cover("handed back")
+    for pi, si in pairs:
+        ln = next(iter(top.molecules[si].nodes))
+        sx.claim(pi in pos and bool(np.array_equal(top.molecules[si].nodes[ln].get("position"), pos[pi])), "each ligand is handed back to its own molecule",
+                 lambda: "S molecule %d: %r" % (si, top.molecules[si].nodes[ln].get("position")))
+    sx.claim([m.mol_name for m in top.molecules] == names_before and all(set(m.nodes) == nodes_before[mi] for mi, m in enumerate(top.molecules)),
+             "the molecule list and its residues are unchanged afterwards")
